@@ -39,6 +39,9 @@ func (m *Mutex) Unlock() {
 }
 
 func (m *Mutex) TryLock() bool {
+	if freeMode.Load() {
+		return m.real.TryLock()
+	}
 	mu.Lock()
 	busy := m.st.writer != nil
 	mu.Unlock()
@@ -76,6 +79,9 @@ func (m *RWMutex) RUnlock() {
 
 // TryRLock is for the scheduler-side hooks: it never blocks.
 func (m *RWMutex) TryRLock() bool {
+	if freeMode.Load() {
+		return m.real.TryRLock()
+	}
 	mu.Lock()
 	busy := m.st.writer != nil
 	mu.Unlock()
@@ -88,6 +94,9 @@ func (m *RWMutex) TryRLock() bool {
 // acquire parks the calling managed goroutine until the lock can be taken
 // and records the acquisition. It returns nil for unmanaged callers.
 func acquire(st *lockState, write bool) *G {
+	if freeMode.Load() {
+		return nil
+	}
 	id := rtGoid()
 	for {
 		mu.Lock()
@@ -123,6 +132,9 @@ func acquire(st *lockState, write bool) *G {
 }
 
 func release(st *lockState, write bool) {
+	if freeMode.Load() {
+		return
+	}
 	id := rtGoid()
 	mu.Lock()
 	g := byGoid[id]
